@@ -153,3 +153,87 @@ func VerifRun_C08d() {
 		}
 	}
 }
+
+// C08-f: batches mixing "changed", "created" and "deleted" events (also delete-only batches): afterwards the
+// diagnostics equal those of a fresh start on the files that now exist. File 0 defines the global the
+// other files read, so deleting or re-creating it changes *their* diagnostics.
+func VerifRun_C08f() {
+	root := verifVFSRoot()
+	c08workspace(root)
+	nf := verifParam("FILES")
+	files := make([]string, nf)
+	for i := range files {
+		files[i] = root + "/" + string([]byte{'a' + byte(i)}) + ".lua"
+	}
+	n1 := verifByteIn("n1", "xy")
+	n2 := verifByteIn("n2", "xy")
+	def0 := []byte("? = 1\n")
+	def0[0] = n1
+	def1 := []byte("? = 1\nlocal u = 2\nprint(zz)\n")
+	def1[0] = n1
+	use := []byte("local r = ?\nq = r\n")
+	use[10] = n2
+	contents := make([][]byte, nf)
+	present := make([]bool, nf)
+	contents[0] = def0
+	for i := 1; i < nf; i++ {
+		contents[i] = use
+	}
+	var initial []string
+	for i := range files {
+		present[i] = i > 0 || verifBool("present0")
+		if present[i] {
+			verifVFSPut(files[i], contents[i])
+			initial = append(initial, files[i])
+		}
+	}
+	p := CreateAllProject(initial, nil, nil)
+	p.HandleCheck()
+	for b := 0; b < verifParam("BATCHES"); b++ {
+		var events []FileEventStruct
+		for i := range files {
+			switch verifConcretize(verifRange("ev", 0, 2)) {
+			case 1: // changed (file 0 alternates between its two versions, the others are only touched)
+				if !present[i] {
+					continue
+				}
+				if i == 0 {
+					if len(contents[0]) == len(def0) {
+						contents[0] = def1
+					} else {
+						contents[0] = def0
+					}
+					verifVFSPut(files[0], contents[0])
+				}
+				events = append(events, FileEventStruct{StrFile: files[i], Type: FileEventChanged})
+			case 2: // deleted / created
+				if present[i] {
+					verifVFSDel(files[i])
+					events = append(events, FileEventStruct{StrFile: files[i], Type: FileEventDeleted})
+				} else {
+					verifVFSPut(files[i], contents[i])
+					events = append(events, FileEventStruct{StrFile: files[i], Type: FileEventCreated})
+				}
+				present[i] = !present[i]
+			}
+		}
+		if len(events) > 0 {
+			p.HandleFileEventChanges(events)
+		}
+	}
+	var now []string
+	for i := range files {
+		if present[i] {
+			now = append(now, files[i])
+		}
+	}
+	got := c08diag(p, files)
+	fresh := CreateAllProject(now, nil, nil)
+	fresh.HandleCheck()
+	want := c08diag(fresh, files)
+	verifObserve("after", got)
+	verifReach("compared")
+	if got != want {
+		verifViolation("", "diagnostics after batches of create / change / delete events differ from those of a fresh start on the files that exist")
+	}
+}
